@@ -390,7 +390,8 @@ theorem refBlueprints_refElems (l : List RText) : refBlueprints (l.map mkRefElem
     rfl
 
 theorem ColForm.build_tables_refs (F : ColForm σ) (ap : Bool) (ts : List (FTab σ)) (rs : List RSpec)
-    (hr : F.Resolvable ts) (hok : ∀ t ∈ ts, F.allOK ap t.cols) (hin : ∀ r ∈ rs, F.RSpecIn ts r) (hnd : rs.Nodup) :
+    (hr : F.Resolvable ts) (hok : ∀ t ∈ ts, F.allOK ap t.cols) (hin : ∀ r ∈ rs, F.RSpecIn ts r) (hnd : rs.Nodup)
+    (hno : ∀ t ∈ ts, ∀ s ∈ t.cols, F.irefs s = []) :
     buildDatabase ap (ts.map F.mkElem ++ (rs.map (F.rtext ts)).map mkRefElem) = .ok (F.mkDb ap ts rs) := by
   have hT : tableBps (ts.map F.mkElem ++ (rs.map (F.rtext ts)).map mkRefElem) = ts.map fun t => F.tableBpC t.name t.cols t.comment := by
     simp [tableBps, ColForm.mkElem, mkRefElem, List.filterMap_append, List.filterMap_map, Function.comp_def]
@@ -405,11 +406,11 @@ theorem ColForm.build_tables_refs (F : ColForm σ) (ap : Bool) (ts : List (FTab 
   have hR : refBlueprints (ts.map F.mkElem ++ (rs.map (F.rtext ts)).map mkRefElem) = rs.map fun r => refBp (F.rtext ts r) := by
     have h1 : refBlueprints (ts.map F.mkElem) = [] := by
       simp only [refBlueprints, ColForm.mkElem, List.flatMap_map, List.flatMap_eq_nil_iff]
-      intro t _
+      intro t ht
       simp only [ColForm.tableBpC, List.flatMap_eq_nil_iff]
       intro b hb
-      obtain ⟨s, _, rfl⟩ := List.mem_map.mp hb
-      simp [F.norefs]
+      obtain ⟨s, hs, rfl⟩ := List.mem_map.mp hb
+      simp [F.norefs s (hno t ht s hs)]
     rw [refBlueprints_append, h1, refBlueprints_refElems]
     simp [List.map_map, Function.comp_def]
   have hF := F.foldlM_tables ap [] ts [] (by simpa using hr.tnames) hok (fun t _ => F.noShadow_nil t)
@@ -464,7 +465,8 @@ theorem ColForm.docTextR_eq (F : ColForm σ) (ts : List (FTab σ)) (rs : List RT
   | cons t r => simp [ColForm.docText, ColForm.docTextR, F.docTailR_eq, F.tabTextP_append]
 
 theorem ColForm.renderDb_tables_refs (F : ColForm σ) (ap : Bool) (ts : List (FTab σ)) (rs : List RSpec)
-    (hok : ∀ t ∈ ts, F.specOK ap t) (hin : ∀ r ∈ rs, F.RSpecIn ts r) (hts : ts ≠ []) (hrs : rs ≠ []) :
+    (hok : ∀ t ∈ ts, F.specOK ap t) (hin : ∀ r ∈ rs, F.RSpecIn ts r) (hts : ts ≠ []) (hrs : rs ≠ [])
+    (hno : ∀ t ∈ ts, ∀ s ∈ t.cols, F.irefs s = []) :
     Dbml.renderDb (F.mkDb ap ts rs) = .ok (F.docTextR ts (rs.map (F.rtext ts))) := by
   have hni : ∀ r ∈ rs.map mkRef, r.inline = false := by
     intro r hr
@@ -474,7 +476,8 @@ theorem ColForm.renderDb_tables_refs (F : ColForm σ) (ap : Bool) (ts : List (FT
       = .ok (ts.map fun t => F.tabText t) := by
     have := range_mapM_form F.mkTable "table position" (fun t => F.tabText t) ts
       (fun i t => Dbml.renderTableBody (F.mkDb ap ts rs) i t)
-      (fun i t ht => F.renderTableBody_ok (F.mkDb ap ts rs) hni i t.name t.cols t.comment (hok t ht).2.1 (hok t ht).2.2.1 (hok t ht).2.2.2)
+      (fun i t ht => F.renderTableBody_ok (F.mkDb ap ts rs) i t.name t.cols t.comment
+        (F.inl_plain _ hni i t.cols (hno t ht)) (hok t ht).2.1 (hok t ht).2.2.1 (hok t ht).2.2.2)
     unfold Dbml.renderTable
     exact this
   have hrefs : ((F.mkDb ap ts rs).refs.filter (!·.inline)).mapM (Dbml.renderRef (F.mkDb ap ts rs))
@@ -514,9 +517,10 @@ theorem ColForm.renderDb_tables_refs (F : ColForm σ) (ap : Bool) (ts : List (FT
     written from. -/
 theorem form_refs_roundtrip (F : ColForm σ) (ap : Bool) (ts : List (FTab σ)) (rs : List RSpec)
     (hok : ∀ t ∈ ts, F.specOK ap t) (hnames : ∀ t ∈ ts, ∀ s ∈ t.cols, NameOK (F.cname s)) (hts : ts ≠ [])
-    (hres : F.Resolvable ts) (hin : ∀ r ∈ rs, F.RSpecIn ts r) (hrs : rs ≠ []) (hnd : rs.Nodup) :
+    (hres : F.Resolvable ts) (hin : ∀ r ∈ rs, F.RSpecIn ts r) (hrs : rs ≠ []) (hnd : rs.Nodup)
+    (hno : ∀ t ∈ ts, ∀ s ∈ t.cols, F.irefs s = []) :
     ∃ text, Dbml.renderDb (F.mkDb ap ts rs) = .ok text ∧ Build.parse ap text = .ok (F.mkDb ap ts rs) := by
-  refine ⟨F.docTextR ts (rs.map (F.rtext ts)), F.renderDb_tables_refs ap ts rs hok hin hts hrs, ?_⟩
+  refine ⟨F.docTextR ts (rs.map (F.rtext ts)), F.renderDb_tables_refs ap ts rs hok hin hts hrs hno, ?_⟩
   have hrok : ∀ r ∈ rs.map (F.rtext ts), RTextOK r := by
     intro x hx
     obtain ⟨r, hr, rfl⟩ := List.mem_map.mp hx
@@ -543,7 +547,7 @@ theorem form_refs_roundtrip (F : ColForm σ) (ap : Bool) (ts : List (FTab σ)) (
       | some s => simp [removeBom, ColForm.docTextR, ColForm.tabTextP, commentText, hcmt]
   rw [hbom, hp]
   simp only []
-  rw [F.build_tables_refs ap ts rs hres (fun t ht => (hok t ht).2.1) hin hnd]
+  rw [F.build_tables_refs ap ts rs hres (fun t ht => (hok t ht).2.1) hin hnd hno]
 
 end C02
 end PyDBML
